@@ -121,13 +121,10 @@ def cloneAux : Nat → Heap → Id → Heap × Id
                             data := r.data, b0 := r.b0, b1 := r.b1, dirty := r.dirty,
                             cache := if r.type.isContainer then none else r.cache }
     let (h1, node) := h.alloc rec0
-    let rec go (h : Heap) : List (Bytes × Id) → Heap
-      | [] => h
-      | (k, c) :: cs =>
-        let (h', cl) := cloneAux fuel h c
+    ((h.childMap n).foldl (fun (h : Heap) (p : Bytes × Id) =>
+        let (h', cl) := cloneAux fuel h p.2
         let h'' := h'.modify cl (fun r => { r with parent := some node })
-        go (h''.modify node (fun r => { r with children := some ((r.children.getD []).insert k cl) })) cs
-    (go h1 (h.childMap n), node)
+        h''.modify node (fun r => { r with children := some ((r.children.getD []).insert p.1 cl) })) h1, node)
 
 /-- `Clone()` -/
 def clone (h : Heap) (n : Id) : Heap × Id :=
@@ -201,7 +198,7 @@ def setNode (h : Heap) (n value : Id) : Heap × Outcome Unit :=
     let h5a := h4.set n (h4.get node)           -- *n = *node
     -- the clone's root record is garbage from here on (no pointer to it survives); Go leaves it as it is,
     -- the model empties it so that it does not claim the adopted children
-    let h5 := h5a.set node {}
+    let h5 := h5a.set node { dirty := true }
     let h6 := (h5.childMap n).vals.foldl (fun h c => h.modify c (fun r => { r with parent := some n })) h5
     match (h6.get n).parent with
     | some p => (h6.mark p, .ok ())
